@@ -5,7 +5,7 @@
    correspondence check; theorems over the reals for ALL inputs. *)
 From Coq Require Import Reals ZArith QArith List String Bool.
 From Verif Require Import Scalar RInst KField KtoR Quat QuatAlg GroupK Groups GroupFacts SymDot SymDotK ZoneModel ZoneProofs
-  CertCheck CertSound RegionCertsAll RegionCertsAllOK ExistCheck RegionExistAllOK.
+  CertCheck CertSound RegionCertsAll RegionCertsAllOK ExistCheck RegionExistAllOK UniqCheck UniqSound RegionUniqAllOK.
 Import ListNotations.
 Local Open Scope R_scope.
 
@@ -119,9 +119,43 @@ Theorem C05_reduction_returns_minimal_member_inside_region : forall rc, In rc (L
 Proof. exact reduce_result_inside_and_minimal. Qed.
 Print Assumptions C05_reduction_returns_minimal_member_inside_region.
 
-(* PARTIAL, still oracle-only: that all members of an orbit reduce to the SAME representative off the region
-   boundaries (uniqueness needs the interiors of the images of the region to be disjoint), and the 1e-9 tolerance
-   of the inside test (the theorems are for the exact test). *)
+(* THE REGION IS A STRICT FUNDAMENTAL DOMAIN: a quaternion strictly inside the region (all dot products with the kept
+   normals > 0, or all < 0) is moved out of the open region by x -> gl * x * gr for EVERY pair of proper operations
+   other than the first pair (the identity pair), all 225 ordered pairs of proper groups.  Proof: two exact Gordan
+   certificates per pair of operations (18 758 in all; found by LPs, checked by vm_compute, sound over R). *)
+Theorem C05_region_images_do_not_overlap : forall rc, In rc (List.concat all_region_certs) ->
+  forall x : quat (T:=R), strictly_inside (rc_N rc) x ->
+  forall gl gr, In (gl, gr) (tl (list_prod (proper_quats (rc_l rc)) (proper_quats (rc_r rc)))) ->
+    ~ strictly_inside (rc_N rc) (transform ROps (qtoR gl) (qtoR gr) x).
+Proof. exact region_interior_images_disjoint. Qed.
+Print Assumptions C05_region_images_do_not_overlap.
+
+(* hence two members of one orbit that both lie strictly inside the region are the same quaternion *)
+Theorem C05_strict_members_coincide : forall rc, In rc (List.concat all_region_certs) ->
+  forall x : quat (T:=R), strictly_inside (rc_N rc) x ->
+  forall gl gr, In gl (map qtoR (proper_quats (rc_l rc))) -> In gr (map qtoR (proper_quats (rc_r rc))) ->
+    strictly_inside (rc_N rc) (transform ROps gl gr x) -> transform ROps gl gr x = x.
+Proof. exact region_strict_members_coincide. Qed.
+Print Assumptions C05_strict_members_coincide.
+
+(* ALL MEMBERS OF ONE ORBIT MAP TO THE SAME REPRESENTATIVE EXCEPT ON REGION BOUNDARIES: the values the reduction
+   returns for M and for any a * M * b agree (as rotations: up to the overall sign of the quaternion) whenever both lie
+   strictly inside the region *)
+Theorem C05_representative_unique_off_boundary : forall rc, In rc (List.concat all_region_certs) ->
+  forall (M : quat (T:=R)) a b,
+  let Gl := map qtoR (proper_quats (rc_l rc)) in
+  let Gr := map qtoR (proper_quats (rc_r rc)) in
+  let N := map qtoR (rc_N rc) in
+  In a Gl -> In b Gr ->
+  let r := reduce ROps 0 N Gl Gr M in
+  let r' := reduce ROps 0 N Gl Gr (transform ROps a b M) in
+  strictly_inside (rc_N rc) r -> strictly_inside (rc_N rc) r' -> r' = r \/ r' = qneg ROps r.
+Proof. exact reduce_representative_unique. Qed.
+Print Assumptions C05_representative_unique_off_boundary.
+
+(* Modelled, not proved: the 1e-9 tolerance of the inside test (the theorems are for the exact test, eps = 0; the
+   correspondence runs the model with eps = 1e-9 against the code, and the oracle probes points on and within 1e-9 of
+   faces, edges and vertices); improper groups enter through get_proper_groups (modelled in the correspondence). *)
 
 Example C05_nonvacuous :
   inside_region ROps 0 (large_cell ROps [(0, 1, 0, 0)]) (1, 0, 0, 0) = true.
